@@ -595,6 +595,58 @@ def run_cli_trickle(jobs, delay=0.25, release=False, timeout=60):
         return list(ex.map(one, jobs))
 
 
+def run_cli_fifo(argv, fifo_path, fifo_data, stdin_data=b"", release=False, timeout=60):
+    """Runs sfs with `fifo_path` (a named pipe created here) among its arguments; fifo_data is written into the pipe once
+    the process has opened it. Returns (rc, stdout, stderr)."""
+    import errno
+    import threading
+    import time as _t
+    try:
+        os.unlink(fifo_path)
+    except OSError:
+        pass
+    os.mkfifo(fifo_path)
+    p = subprocess.Popen([sfs_path(release)] + list(argv), stdin=subprocess.PIPE, stdout=subprocess.PIPE, stderr=subprocess.PIPE, env=ENV)
+
+    def feed():
+        fd = None
+        t0 = _t.time()
+        while p.poll() is None and _t.time() - t0 < timeout:
+            try:
+                fd = os.open(fifo_path, os.O_WRONLY | os.O_NONBLOCK)
+                break
+            except OSError as e:
+                if e.errno != errno.ENXIO:
+                    return
+                _t.sleep(0.01)
+        if fd is None:
+            return
+        try:
+            os.set_blocking(fd, True)
+            view = memoryview(fifo_data)
+            while len(view):
+                view = view[os.write(fd, view[:65536]):]
+        except OSError:
+            pass
+        finally:
+            os.close(fd)
+    th = threading.Thread(target=feed)
+    th.start()
+    try:
+        so, se = p.communicate(stdin_data, timeout=timeout)
+        rc = p.returncode
+    except subprocess.TimeoutExpired:
+        p.kill()
+        so, se = p.communicate()
+        rc = -999
+    th.join(timeout=5)
+    try:
+        os.unlink(fifo_path)
+    except OSError:
+        pass
+    return rc, so, se
+
+
 def invocation_variants(rep, cls, jobs, rng, n=12):
     """The way a command is invoked is no part of its result: for a sample of (argv, stdin) jobs, the same command with the
     input given as a path instead of on stdin, with the output sent to a file (-o, where the subcommand has it), with
@@ -626,9 +678,21 @@ def invocation_variants(rep, cls, jobs, rng, n=12):
             outp = os.path.join(d, "out_%d" % k)
             variants.append(("-o file", [sub] + opts + ["-o", outp], data, outp))
             variants.append(("-o file, input by path", [sub, "--output", outp + "b"] + opts + [inp], b"", outp + "b"))
+            # ... onto a path that already holds something longer (an earlier, larger output): it must be replaced
+            open(outp + "c", "wb").write(b"#SHAPE=<3>\n" + b"9 " * 60000 + b"\n")
+            variants.append(("-o onto an existing longer file", [sub] + opts + ["-o", outp + "c"], data, outp + "c"))
         for name, av, din, outfile in variants:
             allj.append((av, din)); meta.append((k, name, outfile))
     res = run_cli_many(allj)
+    # the input as a path that is not a regular file: /dev/stdin, and a named pipe
+    for k, ((argv, data), r) in enumerate(zip(jobs, ref)):
+        sub, opts = argv[0], list(argv[1:])
+        allj.append(([sub] + opts + ["/dev/stdin"], data)); meta.append((k, "input as /dev/stdin", None))
+        res.append(run_cli_many([allj[-1]])[0])
+        if k % 2 == 0:
+            fifo = os.path.join(d, "fifo_%d" % k)
+            allj.append(([sub] + opts + [fifo], b"")); meta.append((k, "input through a named pipe", None))
+            res.append(run_cli_fifo([sub] + opts + [fifo], fifo, data))
     for (av, din), (k, name, outfile), (rc, so, se) in zip(allj, meta, res):
         rrc, rso, _ = ref[k]
         rep.count("invocation-variants", "%s: %s" % (name, " ".join(jobs[k][0])[:200]), True)
